@@ -276,9 +276,14 @@ def fam_lookup(p: Dict[str, Any], problems: List[str], w: World) -> Tuple[str, f
         created[ident(r)] = (t_in, ttl)
     if state["a"] != "absent" and state["srv"] == "absent":
         pass  # an address without SRV: the lookup does not know the host name yet
+    info = AsyncServiceInfo(TA, NAME)
+    if p.get("repeat"):
+        # the application has used this very object for a lookup before (it timed out six seconds ago): the lookup judged below
+        # is a lookup like any other - first query QU unless forced, and so on
+        w.advance_to_ms(t_lookup - 6400)
+        w.run_coro(info.async_request(zc, 400, None), max_ms=5000)
     w.advance_to_ms(t_lookup)
     forced = {None: None, "QU": DNSQuestionType.QU, "QM": DNSQuestionType.QM}[p["forced"]]
-    info = AsyncServiceInfo(TA, NAME)
     timeout = p["timeout"]
     task = w.spawn(info.async_request(zc, timeout, forced))
     w.advance_to_ms(t_lookup + timeout + 500)
@@ -404,6 +409,9 @@ def points(tier: str) -> List[Dict[str, Any]]:
                 for jit in ((0.0, 1.0) if tier == "quick" else (0.0, 0.5, 1.0)):
                     pts.append({"fam": "lookup", "cache": {"srv": srv, "txt": txt, "a": a}, "timeout": timeout,
                                 "forced": forced, "jitter": jit})
+                    if srv == "absent" and txt == "absent" and jit == 0.0:
+                        pts.append({"fam": "lookup", "cache": {"srv": srv, "txt": txt, "a": a}, "timeout": timeout,
+                                    "forced": forced, "jitter": jit, "repeat": True})
     return pts
 
 
